@@ -66,3 +66,15 @@ Fixpoint ext_mismatches_from (i : nat) (l : list skeleton) : list nat :=
   | s :: t => if wf_file s then ext_mismatches_from (S i) t else i :: ext_mismatches_from (S i) t
   end.
 Definition ext_mismatches := ext_mismatches_from 0.
+
+(* generated names: (type name of an unnamed parameter, name the data model reports); and the reserved list of
+   template/var.go as parsed from the source text of this run *)
+Fixpoint gen_mismatches_from (i : nat) (l : list (str * str)) : list nat :=
+  match l with
+  | [] => []
+  | (tn, obs) :: t => if seqb (gen_name tn) obs then gen_mismatches_from (S i) t else i :: gen_mismatches_from (S i) t
+  end.
+Definition gen_mismatches := gen_mismatches_from 0.
+Fixpoint strs_eqb (a b : list str) : bool :=
+  match a, b with [], [] => true | x :: a', y :: b' => seqb x y && strs_eqb a' b' | _, _ => false end.
+Definition reserved_agrees (from_code : list str) : bool := strs_eqb from_code reserved_names.
